@@ -423,9 +423,12 @@ def _warnings(ctx):
     v_lo = lo_def.value
     unclamped = isinstance(v_lo, ast.BinOp) and isinstance(v_lo.op, ast.Sub) and any(
         isinstance(x, ast.Call) and dotted(x.func) == 'max' for x in ast.walk(v_lo.left))
+    if not unclamped and isinstance(v_lo, ast.BinOp) and isinstance(v_lo.op, ast.Sub) and '.start()' in tl \
+            and not any(isinstance(x, ast.Call) and dotted(x.func) == 'max' for x in ast.walk(v_lo)):
+        unclamped = True           # no clamp at all
     if unclamped:
         ctx.violation('SLICE', 'gen_flags_chunk: the context start is clamped at 0',
-                      f"`{lo} = {tl}` subtracts the left context AFTER clamping: for a trigger word near the start of the text the "
+                      f"`{lo} = {tl}` is not clamped at 0 after the left context is subtracted: for a trigger word near the start of the text the "
                       f"slice start is negative, Python counts it from the end and the context comes out empty / without the "
                       f"triggering words", key="SLICE|gen_flags_chunk|clamp", where=common.loc(gf, lo_def))
     ctx.tri(ok_lo, bad_lo, 'SLICE', 'gen_flags_chunk: context starts at or before the match',
